@@ -84,6 +84,18 @@ func cellCase(c cellSpec, class string, nontrivial bool) Case {
 			o.OracleOK = false
 			o.Note = "decoded value / consumed length differs from the canonical text of the encoded value"
 			o.FindingKey = fmt.Sprintf("cell t=%d md=%d v=%s", c.t, c.md, c.v)
+			return o
+		}
+		// the row image is the caller's (it aliases the event): decoding must leave it as encoded, and decoding the
+		// same cell again must give the same value
+		if orig := append(unhx(resp["bytes"]), c.rest...); hx(data) != hx(orig) {
+			o.OracleOK = false
+			o.Note = "decoding the cell changed the row image it was read from: " + hx(orig) + " -> " + hx(data)
+			o.FindingKey = "image-mutated"
+		} else if again := implCellBytes(data, 0, byte(c.t), uint16(c.md), c.u); again != ib {
+			o.OracleOK = false
+			o.Note = "decoding the same cell a second time gives another value: " + clip(again, 80)
+			o.FindingKey = "image-mutated"
 		}
 		return o
 	}}
